@@ -92,6 +92,15 @@ def gen_cases(rng, tier):
                 items = ['uint:8', 'hex:8', 'int:4=-3', 'oct:6=17', 'bin:3', 'uint:w', '2*uint:4']
                 k = rng.choice([1, 1, 2, 3])
                 steps.append({'op': 'packlist', 'f': [rng.choice(items) for _ in range(k)], 'how': rng.choice(['pack', 'pack', 'unpack', 'readlist'])})
+            elif r < 0.965:
+                # the same format text and keyword NAMES with other keyword VALUES (a memo keyed on the names would reuse the first lengths)
+                f = rng.choice(['uint:n, bin', 'pad:a, bytes:b', 'hex:n, uint:m', 'int:n', 'bits:n, bits:m, bin', '2*uint:n'])
+                steps.append({'op': 'kwfmt', 'f': f, 'kw': {k: rng.choice([4, 8, 12, 16]) if k != 'b' else rng.choice([1, 2]) for k in ('n', 'm', 'a', 'b') if (k + ',' in f + ',' or ':' + k in f)},
+                              'how': rng.choice(['unpack', 'readlist', 'peeklist', 'pack', 'unpack'])})
+            elif r < 0.985:
+                # values that compare equal but encode differently (0.0 / -0.0 / 0 / False, 1 / 1.0 / True), each format, each route, in every order
+                steps.append({'op': 'floatval', 'name': rng.choice(['float', 'floatle', 'floatbe', 'floatne', 'bfloat', 'bfloatle', 'e4m3mxfp', 'e5m2mxfp', 'p4binary', 'p3binary', 'e2m1mxfp', 'mxint']),
+                              'n': rng.choice([16, 32, 64]), 'v': rng.choice(['0.0', '-0.0', '0', 'False', '1', '1.0', 'True', '-1.0']), 'route': rng.choice(['kw', 'token', 'pack', 'build', 'array', 'setattr'])})
             else: steps.append({'op': 'find', 'bits': rand_bits(rng, 24), 'pat': rand_bits(rng, 8)})
         if h == 0:
             # first use of every lazily initialised table under the NON-default option values, then the default ones again
@@ -159,6 +168,34 @@ def do_call(st):
         return [repr(x) for x in (data.unpack(fmt) if st['how'] == 'unpack' else data.readlist(fmt))]
     if op == 'find':
         return list(Bits(bin=st['bits'] + st['pat'] + '0000').find(Bits(bin=st['pat'])))
+    if op == 'kwfmt':
+        data = bitstring.ConstBitStream(bin='1011001110001111' * 8)
+        kw = st['kw']
+        if st['how'] == 'pack':
+            toks = [t.strip() for t in st['f'].replace('2*uint:n', 'uint:n, uint:n').split(',')]
+            vals = []
+            for t in toks:
+                nm = t.split(':')[0]
+                ln = kw.get(t.split(':')[1]) if ':' in t else 4
+                if nm == 'pad': continue
+                vals.append({'uint': 1, 'int': -1, 'bin': '0110', 'hex': 'a' * ((ln or 4) // 4), 'bits': '0b' + '10' * ((ln or 4) // 2), 'bytes': b'x' * (ln or 1)}[nm])
+            return ['pack', list(attempt(lambda: pack(st['f'], *vals, **kw).bin))]
+        fn = {'unpack': data.unpack, 'readlist': data.readlist, 'peeklist': data.peeklist}[st['how']]
+        return [st['how'], [repr(x) for x in fn(st['f'], **kw)], data.pos]
+    if op == 'floatval':
+        from bitstring import Array, BitArray
+        v = {'0.0': 0.0, '-0.0': -0.0, '0': 0, 'False': False, '1': 1, '1.0': 1.0, 'True': True, '-1.0': -1.0}[st['v']]
+        name = st['name']; n = st['n'] if name.startswith('float') else None
+        tok = name if n is None else f'{name}:{n}'
+        r = st['route']
+        if r == 'kw': o = Bits(**({name: v} if n is None else {name: v, 'length': n}))
+        elif r == 'token': o = Bits(f'{tok}={float(v)!r}')
+        elif r == 'pack': o = pack(tok, v)
+        elif r == 'build': o = (Dtype(name, n) if n is not None else Dtype(name)).build(v)
+        elif r == 'array': o = Array(tok.replace(':', ''), [v, 0.0, -0.0]).data
+        else:
+            o = BitArray(); setattr(o, tok.replace(':', ''), v)
+        return o.bin
 
 def set_opts(o):
     import bitstring
@@ -199,8 +236,34 @@ def run_impl(c):
         clear_caches(); set_opts(o)
         r = attempt(lambda: do_call(st))
         if tuple(r) != tuple(warm[i]) and len(diffs) < 5: diffs.append([i, st, list(warm[i]), list(r), o])
+    # the same calls in the opposite order in a FRESH interpreter (each under the option values it had here): a result that depends on the
+    # calls made before it - through any memo, also one that clear_caches() cannot see - differs between the two orders
+    import subprocess
+    payload = json.dumps([[i, st, o] for i, (st, o) in enumerate(zip(c['steps'], snaps)) if st['op'] != 'set'][::-1])
+    try:
+        pr = subprocess.run([sys.executable, '-c', 'import sys, json; sys.path.insert(0, %r); sys.path.insert(0, %r); from props import c09; print(json.dumps(c09.replay(json.load(sys.stdin))))'
+                             % (os.path.join(VERIF, 'tools'), REPO)], input=payload, capture_output=True, text=True, timeout=600, env=dict(os.environ, PYTHONHASHSEED='0', VERIF_REPO=REPO))
+        other = {i: r for i, r in json.loads(pr.stdout.strip().splitlines()[-1])} if pr.returncode == 0 else None
+    except Exception as e:
+        other = None
+    if other is None:
+        diffs.append([-1, {'op': 'replay in a fresh interpreter failed'}, [], [pr.stderr[-300:] if 'pr' in dir() else ''], {}])
+    else:
+        for i, (st, o) in enumerate(zip(c['steps'], snaps)):
+            if st['op'] == 'set': continue
+            if json.loads(json.dumps(list(warm[i]))) != other.get(i) and len(diffs) < 5:
+                diffs.append([i, st, list(warm[i]), ['in the opposite order, fresh interpreter:'] + (other.get(i) or []), o])
     ndist = {k: len({json.dumps(s.get(kk)) for s in c['steps'] if s['op'] == k}) for k, kk in (('str', 's'), ('fmt', 'f'), ('dtype', 'd'))}
     return ('ok', {'calls': len(c['steps']), 'diffs': diffs, 'distinct_keys': ndist, 'option_reads_seen': sorted(reads_log)})
+
+def replay(items):
+    """run [index, step, options] items in the given order; -> [[index, result]]"""
+    out = []
+    for i, st, o in items:
+        set_opts(o)
+        try: out.append([i, list(attempt(lambda: do_call(st)))])
+        finally: reset_options()
+    return out
 
 def oracle(c, obs):
     if obs[0] != 'ok': return f"history raised {obs}"
